@@ -32,6 +32,33 @@ CHECKS = {
  "C18": ("exploration", "bounded-exhaustive enumeration of helper call shapes x every input value at Python level and in compiled wrappers; CRC by exhaustive message-prefix tree",
          "all 38 named helpers x widths 1..6 (thorough 1..9) x every input value, evaluated on constants and in compiled std.concurrent wrappers under vsim; CRC for all polynomials of width 3..5 and all messages <=6 bits under all step splits against polynomial long division",
          "oracle = plain-int definitions from the .pyi docstrings; undocumented corner inputs are outside the alphabet (notes/C18.md)"),
+ "C02": ("exploration", "bounded-exhaustive enumeration of well-typed expression trees x every operand valuation, simulated in concurrent and clocked contexts",
+         "all depth-1 expressions over the operator alphabet for widths 1..3 incl. mixed widths (thorough 1..4 + depth 2) placed in std.concurrent and clocked contexts; every operand valuation applied under vsim and compared with reference semantics written from the statement and .pyi docs; result types checked via declared port types and a pyeval probe",
+         "reference = verif/ref/values.py; division by zero, negative shifts, out-of-range indices outside the alphabet (notes/C02.md)"),
+ "C09": ("exploration", "bounded-exhaustive three-way comparison (Python objects / constant folding in synthesizable context / run-time logic) for every operation and operand valuation",
+         "every depth-1 operator/conversion/method x both operand orders x Python ints on either side x every valuation for widths 1..3 (thorough 1..4): Python-level result, folded constant read back by simulation, and run-time result must agree in type, width and value",
+         "a way that rejects makes no claim; vsim trusted (notes/C09.md)"),
+ "C10": ("exploration", "bounded-exhaustive differential testing against CPython (signatures x call shapes, operator dispatch matrices, class/closure/expression/statement grammars)",
+         "230k (thorough 1.9M) generated compile-time programs evaluated by CPython and inside a std.concurrent body (value handed to a pyeval probe); cohdl must produce a structurally equal value or reject; CPython binding errors must be rejected",
+         "and/or compared by truth value; programs without structural equality are not generated (see final report in notes)"),
+ "C13": ("exploration", "explicit enumeration of all orders of first use of parametrised types from the import-time cache state + exhaustive view-chain checks (Python level and emitted designs)",
+         "all orders of <=3 (thorough <=4) type expressions over qualifiers x kinds x widths, full lattice invariant after every prefix; view chains of length <=2 checked for aliasing at Python level and by simulating compiled wrappers for every input value",
+         "class caches are saved/restored between orders (cross-checked against forked processes)"),
+ "C14": ("model_checking", "explicit-state model checking (product BFS of wrapper design x deque/list model x environment) incl. exact liveness on the reachable graph",
+         "std.Fifo / std.Stack configurations (types, N, delays, one/two contexts, stack modes) explored to exhaustion under every push/pop/reset request combination per clock; cycle-exact oracle for zero-delay, safety + liveness oracle for delayed variants",
+         "single clock; delayed variants are not required to be cycle-exact (weakest reading) (notes/C14.md)"),
+ "C15": ("model_checking", "explicit-state model checking (product BFS of two-process wrapper x hand-over monitor)",
+         "SyncFlag / Mailbox in six usage idioms x delays {0..2}^2 (thorough {0..4}^2) x one/two contexts explored to exhaustion under every send/willing choice per clock; exactly-once, order, payload and observation rules R1-R5 plus liveness",
+         "single clock; latency left open (notes/C15.md)"),
+ "C17": ("exploration", "bounded-exhaustive enumeration of serialisable type compositions x every value / bit pattern, Python level and compiled round-trip wrappers",
+         "type compositions of nesting <=2 (thorough <=3) with total width <=8 (10): round-trip identities, count_bits, independently recomputed layout, compile-time == emitted logic, BitField ranges",
+         "layout reference written from the .pyi docs and upstream serialization test (notes/C17.md)"),
+ "C19": ("exploration", "bounded-exhaustive enumeration of fixed-point formats, format pairs, resize styles and every raw value against exact rational arithmetic",
+         "all formats [l:r] in -3..3 width<=5 (thorough -4..4 width<=6) for SFixed/UFixed: + - * == resize (2x2 styles) constructors, Python level and compiled wrappers under vsim, compared with fractions.Fraction",
+         "quick hardware level complete for -2..2 plus a seed-chosen sixth of the remaining pairs (notes/C19.md)"),
+ "C20": ("model_checking", "explicit-state model checking (product BFS of register-map design x byte-array model + AXI monitor x protocol-respecting master environment)",
+         "four register-map layouts on addr_map_entity(addr_width=4); per alphabet variant the reachable product space is exhausted under all per-clock valid/ready/payload choices; handshake, exactly-once response, strobe-exact write, read value, unmapped and notification rules",
+         "data abstraction: two data words, four strobes (assumption recorded in the evidence); reset not asserted (notes/C20.md)"),
 }
 ORDER = sorted(CHECKS)
 NA = []
